@@ -60,6 +60,12 @@ def parse_chk(reply):
     return d
 
 
+GENERATED_LOOKING = ["synth_fill_block_0", "synth_asign_block_0", "synth_asign_block_1", "synth_head_block_0",
+                     "synth_exit_block_0", "synth_exit_latch_block_0", "synth_tail_block_0", "synth_return_block_0",
+                     "loop_region_0", "head_region_0", "branch_region_0", "branch_region_1", "tail_region_0",
+                     "synth_fill_block_1", "synth_exiting_latch_block_0"]
+
+
 def _work(chunk):
     """chunk: list of (idx, tag, succ). Returns list of per-case dicts."""
     drv = common.Driver()
@@ -67,7 +73,16 @@ def _work(chunk):
     plan = []   # (case idx, stage) per CHK line index
     cases = []
     for idx, tag, succ in chunk:
-        scfg = export.mk_scfg(succ, payload="bytecode" if idx % 3 == 1 else "basic")
+        names = None
+        if idx % 11 == 5 and len(succ) >= 2:
+            # input blocks whose names have the shape of generated names (must be conserved, never
+            # overwritten by a block the pipeline inserts)
+            names = [str(i) for i in range(len(succ))]
+            names[(idx // 11) % len(succ)] = GENERATED_LOOKING[(idx // 11) % len(GENERATED_LOOKING)]
+            names[-1 - (idx // 121) % (len(succ) - 1)] = GENERATED_LOOKING[(idx // 7 + 3) % len(GENERATED_LOOKING)]
+            if len(set(names)) != len(names):
+                names = None
+        scfg = export.mk_scfg(succ, names=names, payload="bytecode" if idx % 3 == 1 else "basic")
         gtop, gline = export.export(scfg)
         t0 = time.perf_counter()
         st = run_stages(scfg)
